@@ -93,8 +93,10 @@ def decide(prop, tier='quick', seed=0, units=None, jobs=8, quiet=False):
         os.makedirs(os.path.join(ROOT, 'gen'), exist_ok=True)
         gen_dir = tempfile.mkdtemp(prefix='%s-%s-' % (prop, tier), dir=os.path.join(ROOT, 'gen'))
         futs = [ex.submit(R.run_unit, u, gen_dir, None, seed or None) for u in units]
+        rfuts = [ex.submit(R.run_reach, u, gen_dir) for u in units]
         for f in futs:
             results.append(f.result())
+        reach = [f.result() for f in rfuts]
     known = [k for k in load_known() if k.get('status', 'known') == 'known']
     known_ids = {k['id']: k for k in known if prop in k.get('properties', [k.get('property')])}
     violations, known_hits, undecided = [], [], []
@@ -157,6 +159,15 @@ def decide(prop, tier='quick', seed=0, units=None, jobs=8, quiet=False):
                 known_hits.append((r, fl, known_ids[kid]))
             else:
                 violations.append((r, fl))
+    reach_checked = sum(r_[0] for r_ in reach)
+    reach_vacuous = []
+    for u, (n_, vac, note) in zip(units, reach):
+        for q in vac:
+            reach_vacuous.append('%s: %s' % (os.path.basename(u), q))
+        if note and n_ == 0:
+            reach_vacuous.append('%s: vacuity guard could not run (%s)' % (os.path.basename(u), note))
+    for v in reach_vacuous:
+        undecided.append('vacuity guard: contradictory or unchecked preconditions: ' + v)
     n_failed = len(violations)
     rc = 0
     lines = []
@@ -214,6 +225,7 @@ def decide(prop, tier='quick', seed=0, units=None, jobs=8, quiet=False):
             extraction_rules_applied=rules,
             units=[dict(unit=r.unit, status=r.status, reason=r.reason, generated_sha256=r.gen_sha, wall_s=round(r.wall_s, 2), verified_functions=getattr(r, 'verified_count', None)) for r in results],
             known_findings_hit=[dict(id=k['id'], obligation=fl.oid, what=k['what']) for _r, fl, k in known_hits],
+            vacuity_guard=dict(rule='for every function under contract with preconditions, a twin with the same signature and preconditions and body `assert(false)` must FAIL to verify', twins_checked=reach_checked, vacuous=reach_vacuous),
             samples=samples or [dict(note='no tagged ensures clause; see functions_under_contract')],
             exhaustive=False,
         ),
